@@ -47,6 +47,17 @@ def handleTri (stream : String) (t : Toks) : Option String :=
     let (c, t) := t.pt
     let (d, _) := t.pt
     some s!"p1={fmtPtsDigest (Triangle.points ⟨a, b, c⟩)} p2={fmtPtsDigest (Triangle.points ⟨a, c, d⟩)}"
+  | "tri.draw" =>
+    -- what `draw()` leaves on a native-fill target with bounding box `B`: the model's point list
+    -- (`points()` for a fill, the width-1 outline for a stroke) clipped to `B`, as a row-major set
+    let (tri, t) := triOf t
+    let (kind, t) := t.nat
+    let (B, _) := t.rect
+    let all : List Pt := if kind == 0 then tri.points else (tri.outlinePixels 1).map (·.1)
+    let inside := (all.filter (fun p => B.contains p)).mergeSort ptLe
+    let dedup := (inside.foldl (fun (acc : List Pt × Option Pt) p =>
+      if acc.2 == some p then acc else (p :: acc.1, some p)) ([], none)).1.reverse
+    some s!"m={fmtPtsDigest dedup}"
   | _ => none
 
 end EG.Driver
